@@ -1,3 +1,696 @@
+//! C16: deadpool-postgres health checks, statement cache and cache registry,
+//! explored as histories against a scripted PostgreSQL backend that speaks
+//! the v3 wire protocol over an in-memory duplex stream.
+
+use std::cell::RefCell;
+use std::collections::{BTreeMap, BTreeSet};
+use std::future::Future;
+use std::hash::{Hash, Hasher};
+use std::pin::Pin;
+use std::sync::Arc;
+
+use deadpool::managed::{Object, PoolError, Timeouts};
+use deadpool_postgres::{ClientWrapper, Connect, Manager, ManagerConfig, Pool, RecyclingMethod};
+use dpmc::explorer::{self, choose_free, note_state, Outcome, Violation};
 use dpmc::report::{Scenario, Tier};
-pub fn scenarios(_t: Tier) -> Vec<Scenario> { vec![] }
-pub fn assumptions() -> Vec<String> { vec![] }
+use dpmc::trace;
+use tokio::io::{AsyncReadExt, AsyncWriteExt, DuplexStream};
+use tokio::sync::Notify;
+use tokio::task::JoinHandle;
+use tokio_postgres::types::Type;
+use tokio_postgres::{Client as PgClient, Config as PgConfig, Error, NoTls, SimpleQueryMessage};
+
+const IDENT: &str = "--ident";
+
+#[derive(Clone, Debug, PartialEq, Eq, Hash)]
+enum Msg {
+    Query(String),
+    Parse { name: String, query: String, oids: Vec<u32> },
+    Other(char),
+}
+
+struct Conn {
+    log: Vec<Msg>,
+    close: bool,
+    fail_next: bool,
+    notify: Arc<Notify>,
+    server_closed: bool,
+    statements: BTreeMap<String, (String, Vec<u32>)>,
+}
+
+#[derive(Default)]
+struct World {
+    conns: Vec<Conn>,
+    viol: Vec<Violation>,
+    log: Vec<String>,
+}
+
+thread_local! {
+    static W: RefCell<Option<World>> = const { RefCell::new(None) };
+}
+
+fn w<R>(f: impl FnOnce(&mut World) -> R) -> R {
+    W.with(|c| f(c.borrow_mut().as_mut().expect("c16 world")))
+}
+
+fn bad(key: &str, msg: String) {
+    w(|w| {
+        if !w.viol.iter().any(|v| v.key == key) {
+            w.viol.push(Violation { property: "C16".into(), key: key.into(), msg });
+        }
+    })
+}
+
+// ------------------------------------------------------------------ server
+
+fn put_msg(buf: &mut Vec<u8>, ty: u8, body: &[u8]) {
+    buf.push(ty);
+    buf.extend_from_slice(&((body.len() + 4) as u32).to_be_bytes());
+    buf.extend_from_slice(body);
+}
+
+fn ready(buf: &mut Vec<u8>) {
+    put_msg(buf, b'Z', b"I");
+}
+
+fn error_response(buf: &mut Vec<u8>) {
+    let mut b = Vec::new();
+    b.extend_from_slice(b"SERROR\0VERROR\0CXX000\0Mscripted failure\0\0");
+    put_msg(buf, b'E', &b);
+}
+
+fn cstr(b: &[u8], pos: &mut usize) -> String {
+    let start = *pos;
+    while *pos < b.len() && b[*pos] != 0 {
+        *pos += 1;
+    }
+    let s = String::from_utf8_lossy(&b[start..*pos]).to_string();
+    *pos += 1;
+    s
+}
+
+async fn server(mut io: DuplexStream, id: usize, notify: Arc<Notify>) {
+    // startup message: int32 len, int32 protocol, params
+    let mut len = [0u8; 4];
+    if io.read_exact(&mut len).await.is_err() {
+        return;
+    }
+    let n = u32::from_be_bytes(len) as usize;
+    let mut body = vec![0u8; n.saturating_sub(4)];
+    if io.read_exact(&mut body).await.is_err() {
+        return;
+    }
+    let mut out = Vec::new();
+    put_msg(&mut out, b'R', &0u32.to_be_bytes());
+    let mut ps = Vec::new();
+    ps.extend_from_slice(b"server_version\015.0\0");
+    put_msg(&mut out, b'S', &ps);
+    let mut k = Vec::new();
+    k.extend_from_slice(&(id as u32 + 1000).to_be_bytes());
+    k.extend_from_slice(&7u32.to_be_bytes());
+    put_msg(&mut out, b'K', &k);
+    ready(&mut out);
+    if io.write_all(&out).await.is_err() {
+        return;
+    }
+    loop {
+        let mut ty = [0u8; 1];
+        tokio::select! {
+            biased;
+            _ = notify.notified() => {
+                if w(|w| w.conns[id].close) {
+                    w(|w| w.conns[id].server_closed = true);
+                    return;
+                }
+                continue;
+            }
+            r = io.read_exact(&mut ty) => {
+                if r.is_err() {
+                    return;
+                }
+            }
+        }
+        let mut len = [0u8; 4];
+        if io.read_exact(&mut len).await.is_err() {
+            return;
+        }
+        let n = u32::from_be_bytes(len) as usize;
+        let mut body = vec![0u8; n.saturating_sub(4)];
+        if io.read_exact(&mut body).await.is_err() {
+            return;
+        }
+        let mut out = Vec::new();
+        match ty[0] {
+            b'Q' => {
+                let mut p = 0;
+                let q = cstr(&body, &mut p);
+                if q == IDENT {
+                    // harness identification query: one row with the connection id
+                    let mut rd = Vec::new();
+                    rd.extend_from_slice(&1u16.to_be_bytes());
+                    rd.extend_from_slice(b"id\0");
+                    rd.extend_from_slice(&0u32.to_be_bytes());
+                    rd.extend_from_slice(&0u16.to_be_bytes());
+                    rd.extend_from_slice(&25u32.to_be_bytes());
+                    rd.extend_from_slice(&(-1i16).to_be_bytes());
+                    rd.extend_from_slice(&(-1i32).to_be_bytes());
+                    rd.extend_from_slice(&0u16.to_be_bytes());
+                    put_msg(&mut out, b'T', &rd);
+                    let v = id.to_string();
+                    let mut dr = Vec::new();
+                    dr.extend_from_slice(&1u16.to_be_bytes());
+                    dr.extend_from_slice(&(v.len() as u32).to_be_bytes());
+                    dr.extend_from_slice(v.as_bytes());
+                    put_msg(&mut out, b'D', &dr);
+                    put_msg(&mut out, b'C', b"SELECT 1\0");
+                    ready(&mut out);
+                } else {
+                    let fail = w(|w| {
+                        w.conns[id].log.push(Msg::Query(q.clone()));
+                        std::mem::replace(&mut w.conns[id].fail_next, false)
+                    });
+                    if fail {
+                        error_response(&mut out);
+                    } else if q.trim().is_empty() {
+                        put_msg(&mut out, b'I', b"");
+                    } else {
+                        put_msg(&mut out, b'C', b"SET\0");
+                    }
+                    ready(&mut out);
+                }
+            }
+            b'P' => {
+                let mut p = 0;
+                let name = cstr(&body, &mut p);
+                let query = cstr(&body, &mut p);
+                let nt = u16::from_be_bytes([body[p], body[p + 1]]) as usize;
+                p += 2;
+                let mut oids = Vec::new();
+                for _ in 0..nt {
+                    oids.push(u32::from_be_bytes([body[p], body[p + 1], body[p + 2], body[p + 3]]));
+                    p += 4;
+                }
+                let fail = w(|w| {
+                    w.conns[id].log.push(Msg::Parse { name: name.clone(), query: query.clone(), oids: oids.clone() });
+                    let f = std::mem::replace(&mut w.conns[id].fail_next, false);
+                    if !f {
+                        w.conns[id].statements.insert(name.clone(), (query.clone(), oids.clone()));
+                    }
+                    f
+                });
+                if fail {
+                    error_response(&mut out);
+                    // skip to Sync: the client pipelines Describe + Sync; answer them below
+                    w(|w| w.conns[id].statements.remove(&name));
+                    // mark failure state so Describe is ignored until Sync
+                    w(|w| w.conns[id].log.push(Msg::Other('!')));
+                } else {
+                    put_msg(&mut out, b'1', b"");
+                }
+            }
+            b'D' => {
+                let in_error = w(|w| matches!(w.conns[id].log.last(), Some(Msg::Other('!'))));
+                if !in_error {
+                    let mut p = 1;
+                    let name = cstr(&body, &mut p);
+                    let (query, oids) = w(|w| w.conns[id].statements.get(&name).cloned().unwrap_or_default());
+                    let nparams = (1..=9).filter(|i| query.contains(&format!("${}", i))).count();
+                    let mut pd = Vec::new();
+                    pd.extend_from_slice(&(nparams as u16).to_be_bytes());
+                    for i in 0..nparams {
+                        let oid = oids.get(i).copied().filter(|o| *o != 0).unwrap_or(25);
+                        pd.extend_from_slice(&oid.to_be_bytes());
+                    }
+                    put_msg(&mut out, b't', &pd);
+                    put_msg(&mut out, b'n', b"");
+                }
+            }
+            b'S' => {
+                w(|w| {
+                    if matches!(w.conns[id].log.last(), Some(Msg::Other('!'))) {
+                        w.conns[id].log.pop();
+                    }
+                });
+                ready(&mut out);
+            }
+            b'C' => {
+                let mut p = 1;
+                let name = cstr(&body, &mut p);
+                w(|w| {
+                    w.conns[id].statements.remove(&name);
+                });
+                put_msg(&mut out, b'3', b"");
+            }
+            b'X' => return,
+            other => {
+                w(|w| w.conns[id].log.push(Msg::Other(other as char)));
+            }
+        }
+        if !out.is_empty() && io.write_all(&out).await.is_err() {
+            return;
+        }
+    }
+}
+
+struct FakeConnect;
+
+type BoxFuture<'a, T> = Pin<Box<dyn Future<Output = T> + Send + 'a>>;
+
+impl Connect for FakeConnect {
+    fn connect(&self, pg_config: &PgConfig) -> BoxFuture<'_, Result<(PgClient, JoinHandle<()>), Error>> {
+        let cfg = pg_config.clone();
+        Box::pin(async move {
+            let (client_io, server_io) = tokio::io::duplex(1 << 16);
+            let notify = Arc::new(Notify::new());
+            let id = w(|w| {
+                w.conns.push(Conn { log: Vec::new(), close: false, fail_next: false, notify: notify.clone(), server_closed: false, statements: BTreeMap::new() });
+                w.conns.len() - 1
+            });
+            drop(tokio::spawn(server(server_io, id, notify)));
+            let (client, connection) = cfg.connect_raw(client_io, NoTls).await?;
+            let task = tokio::spawn(async move {
+                let _ = connection.await;
+            });
+            Ok((client, task))
+        })
+    }
+}
+
+async fn settle() {
+    for _ in 0..12 {
+        tokio::task::yield_now().await;
+    }
+}
+
+async fn ident(c: &ClientWrapper) -> Option<usize> {
+    match c.simple_query(IDENT).await {
+        Ok(msgs) => {
+            for m in msgs {
+                if let SimpleQueryMessage::Row(r) = m {
+                    return r.get(0).and_then(|s| s.parse().ok());
+                }
+            }
+            None
+        }
+        Err(_) => None,
+    }
+}
+
+// ------------------------------------------------------------------ driver
+
+#[derive(Clone, Debug)]
+pub struct C16Scenario {
+    pub method: usize,
+    pub ms: usize,
+    pub depth: usize,
+}
+
+fn method_of(i: usize) -> RecyclingMethod {
+    match i {
+        0 => RecyclingMethod::Fast,
+        1 => RecyclingMethod::Verified,
+        2 => RecyclingMethod::Clean,
+        _ => RecyclingMethod::Custom("SELECT custom_check()".into()),
+    }
+}
+
+const QUERIES: [&str; 2] = ["SELECT $1", "SELECT $1, $2"];
+
+fn types_of(i: usize) -> Vec<Type> {
+    match i {
+        0 => vec![],
+        1 => vec![Type::INT4],
+        _ => vec![Type::TEXT],
+    }
+}
+
+#[derive(Default, Clone)]
+struct ClientRef {
+    /// reference key set of the statement cache
+    keys: BTreeSet<(String, Vec<u32>)>,
+    /// number of Query / Parse messages seen when the client was last returned
+    mark: usize,
+    /// the client must not be handed out again
+    doomed: bool,
+    left_pool: bool,
+}
+
+fn significant(log: &[Msg]) -> Vec<Msg> {
+    log.iter().filter(|m| matches!(m, Msg::Query(_) | Msg::Parse { .. })).cloned().collect()
+}
+
+pub fn run_c16(sc: &C16Scenario) -> Outcome {
+    W.with(|c| *c.borrow_mut() = Some(World::default()));
+    let rt = tokio::runtime::Builder::new_current_thread().enable_time().start_paused(true).build().expect("runtime");
+    let obs = rt.block_on(run_inner(sc));
+    drop(rt);
+    let world = W.with(|c| c.borrow_mut().take()).unwrap();
+    Outcome { obs, violations: world.viol }
+}
+
+async fn run_inner(sc: &C16Scenario) -> u64 {
+    let method = method_of(sc.method);
+    // the documented check of each recycling method (written out here, not
+    // taken from the code under test)
+    let exp_query: Option<String> = match sc.method {
+        0 => None,
+        1 => Some(String::new()),
+        2 => Some("CLOSE ALL; SET SESSION AUTHORIZATION DEFAULT; RESET ALL; UNLISTEN *; SELECT pg_advisory_unlock_all(); DISCARD TEMP; DISCARD SEQUENCES;".to_string()),
+        _ => Some("SELECT custom_check()".to_string()),
+    };
+    let mut pg = PgConfig::new();
+    pg.user("u").dbname("d").host("scripted");
+    let mgr = Manager::from_connect(pg, FakeConnect, ManagerConfig { recycling_method: method.clone() });
+    let pool: Pool = Pool::builder(mgr).max_size(sc.ms).build().unwrap();
+    let nb = Timeouts { wait: Some(std::time::Duration::ZERO), create: None, recycle: None };
+    let mut held: Vec<(Object<Manager>, usize)> = Vec::new();
+    let mut taken: Vec<(ClientWrapper, usize)> = Vec::new();
+    let mut refs: BTreeMap<usize, ClientRef> = BTreeMap::new();
+    let mut limit = sc.ms;
+    for _ in 0..sc.depth {
+        if !w(|w| w.viol.is_empty()) {
+            break;
+        }
+        // operations
+        #[derive(Clone, Debug)]
+        enum Op {
+            Get,
+            Return(usize),
+            Take(usize),
+            Prepare(usize, usize, usize, bool),
+            CacheClear(usize),
+            CacheRemove(usize, usize, usize),
+            RegClear,
+            RegRemove(usize, usize),
+            ServerClose(usize),
+            ServerFail(usize),
+            RetainNone,
+            Resize(usize),
+            Stop,
+        }
+        let mut ops = Vec::new();
+        if held.len() < limit {
+            ops.push(Op::Get);
+        }
+        for j in 0..held.len() {
+            ops.push(Op::Return(j));
+            ops.push(Op::Prepare(j, 0, 1, true));
+            ops.push(Op::Prepare(j, 0, 2, true));
+            ops.push(Op::Prepare(j, 0, 0, false));
+            ops.push(Op::Prepare(j, 1, 1, true));
+            ops.push(Op::Take(j));
+            ops.push(Op::CacheClear(j));
+            ops.push(Op::CacheRemove(j, 0, 1));
+        }
+        ops.push(Op::RegClear);
+        ops.push(Op::RegRemove(0, 1));
+        let nconn = w(|w| w.conns.len());
+        for i in 0..nconn {
+            if !w(|w| w.conns[i].close) && !refs.get(&i).map(|r| r.left_pool && !taken.iter().any(|t| t.1 == i)).unwrap_or(false) {
+                ops.push(Op::ServerClose(i));
+                ops.push(Op::ServerFail(i));
+            }
+        }
+        ops.push(Op::RetainNone);
+        if sc.ms > 1 {
+            ops.push(Op::Resize(1));
+        }
+        ops.push(Op::Stop);
+        let op = ops[choose_free(ops.len())].clone();
+        trace!("op {:?}", op);
+        explorer::count_step();
+        w(|w| w.log.push(format!("{:?}", op)));
+        match op {
+            Op::Stop => break,
+            Op::Get => match pool.timeout_get(&nb).await {
+                Ok(o) => {
+                    let before: Vec<usize> = w(|w| w.conns.iter().map(|c| significant(&c.log).len()).collect());
+                    match ident(&o).await {
+                        None => {
+                            bad("handed-out-dead-client", "get() returned a client whose connection does not answer".into());
+                        }
+                        Some(id) => {
+                            trace!("  get -> connection {}", id);
+                            let r = refs.entry(id).or_default().clone();
+                            if r.doomed {
+                                bad("closed-or-failed-client-reissued", format!("connection {} was closed by the server or failed its health check but was handed out again", id));
+                            }
+                            if r.left_pool {
+                                bad("released-client-reissued", format!("connection {} had left the pool but was handed out", id));
+                            }
+                            if w(|w| w.conns[id].server_closed) {
+                                bad("server-closed-client-reissued", format!("connection {} was closed by the server but handed out", id));
+                            }
+                            // which check did recycling issue?
+                            let sig = w(|w| significant(&w.conns[id].log));
+                            let since = &sig[r.mark.min(sig.len())..before[id].min(sig.len())];
+                            let reused = r.mark > 0 || before[id] > 0 || refs.get(&id).map(|x| x.mark > 0).unwrap_or(false);
+                            let was_returned = w(|w| w.log.iter().any(|l| l == &format!("returned {}", id)));
+                            if was_returned {
+                                let expect: Vec<Msg> = exp_query.iter().map(|q| Msg::Query(q.clone())).collect();
+                                if since != expect.as_slice() {
+                                    bad("wrong-recycle-check", format!("recycling connection {} with {:?} issued {:?}, documented {:?}", id, method, since, expect));
+                                }
+                            }
+                            let _ = reused;
+                            if o.statement_cache.size() != r.keys.len() {
+                                bad("cache-size", format!("statement cache of connection {} reports size {} but {} keys are cached", id, o.statement_cache.size(), r.keys.len()));
+                            }
+                            held.push((o, id));
+                        }
+                    }
+                }
+                Err(PoolError::Backend(e)) => {
+                    trace!("  get -> backend error {}", e);
+                }
+                Err(e) => bad("get-failed", format!("get() with a free slot failed: {:?}", e)),
+            },
+            Op::Return(j) => {
+                let (o, id) = held.remove(j);
+                let sig = w(|w| significant(&w.conns[id].log).len());
+                refs.get_mut(&id).unwrap().mark = sig;
+                w(|w| w.log.push(format!("returned {}", id)));
+                drop(o);
+                settle().await;
+            }
+            Op::Take(j) => {
+                let (o, id) = held.remove(j);
+                let cw = Object::take(o);
+                refs.get_mut(&id).unwrap().left_pool = true;
+                if Arc::weak_count(&cw.statement_cache) != 0 {
+                    bad("taken-client-still-registered", format!("connection {} was taken but the registry still refers to its statement cache", id));
+                }
+                taken.push((cw, id));
+            }
+            Op::Prepare(j, qi, ti, typed) => {
+                let (o, id) = &held[j];
+                let id = *id;
+                let q = QUERIES[qi];
+                let types = if typed { types_of(ti) } else { vec![] };
+                let key = (q.to_string(), types.iter().map(|t| t.oid()).collect::<Vec<u32>>());
+                let before = w(|w| significant(&w.conns[id].log));
+                let r = if typed { o.prepare_typed_cached(q, &types).await } else { o.prepare_cached(q).await };
+                let after = w(|w| significant(&w.conns[id].log));
+                let others_changed = false;
+                let _ = others_changed;
+                let hit = refs[&id].keys.contains(&key);
+                match r {
+                    Ok(stmt) => {
+                        let new: Vec<Msg> = after[before.len()..].to_vec();
+                        if hit {
+                            if !new.is_empty() {
+                                bad("cache-hit-round-trip", format!("cached statement {:?} caused server traffic {:?}", key, new));
+                            }
+                        } else {
+                            let ok = new.len() == 1 && matches!(&new[0], Msg::Parse { query, oids, .. } if query == q && *oids == key.1);
+                            if !ok {
+                                bad("cache-miss-prepare", format!("preparing {:?} on connection {} sent {:?}", key, id, new));
+                            }
+                            refs.get_mut(&id).unwrap().keys.insert(key.clone());
+                        }
+                        // the statement must be the one prepared for exactly this key on this connection
+                        let want: Vec<u32> = {
+                            let n = (1..=9).filter(|i| q.contains(&format!("${}", i))).count();
+                            (0..n).map(|i| key.1.get(i).copied().unwrap_or(25)).collect()
+                        };
+                        let got: Vec<u32> = stmt.params().iter().map(|t| t.oid()).collect();
+                        if got != want {
+                            bad("wrong-statement", format!("prepare for {:?} returned a statement with parameter types {:?}", key, got));
+                        }
+                    }
+                    Err(e) => {
+                        trace!("  prepare failed: {}", e);
+                        if after.len() == before.len() && !w(|w| w.conns[id].close) {
+                            bad("prepare-error-without-traffic", format!("prepare failed without talking to the server: {}", e));
+                        }
+                    }
+                }
+                if o.statement_cache.size() != refs[&id].keys.len() {
+                    bad("cache-size", format!("statement cache of connection {} reports size {} but {} keys are cached", id, o.statement_cache.size(), refs[&id].keys.len()));
+                }
+            }
+            Op::CacheClear(j) => {
+                let (o, id) = &held[j];
+                o.statement_cache.clear();
+                refs.get_mut(id).unwrap().keys.clear();
+                if o.statement_cache.size() != 0 {
+                    bad("cache-size", "size() != 0 after clear()".into());
+                }
+                settle().await;
+            }
+            Op::CacheRemove(j, qi, ti) => {
+                let (o, id) = &held[j];
+                let key = (QUERIES[qi].to_string(), types_of(ti).iter().map(|t| t.oid()).collect::<Vec<u32>>());
+                let had = refs.get_mut(id).unwrap().keys.remove(&key);
+                let r = o.statement_cache.remove(QUERIES[qi], &types_of(ti));
+                if r.is_some() != had {
+                    bad("cache-remove", format!("remove({:?}) returned {:?}, cached: {}", key, r.is_some(), had));
+                }
+                if o.statement_cache.size() != refs[id].keys.len() {
+                    bad("cache-size", "size() wrong after remove()".into());
+                }
+                settle().await;
+            }
+            Op::RegClear | Op::RegRemove(_, _) => {
+                let key = match &op {
+                    Op::RegRemove(qi, ti) => Some((QUERIES[*qi].to_string(), types_of(*ti).iter().map(|t| t.oid()).collect::<Vec<u32>>())),
+                    _ => None,
+                };
+                match &op {
+                    Op::RegRemove(qi, ti) => pool.manager().statement_caches.remove(QUERIES[*qi], &types_of(*ti)),
+                    _ => pool.manager().statement_caches.clear(),
+                }
+                // exactly the clients the pool owns are reached
+                for (id, r) in refs.iter_mut() {
+                    if !r.left_pool {
+                        match &key {
+                            Some(k) => {
+                                r.keys.remove(k);
+                            }
+                            None => r.keys.clear(),
+                        }
+                    }
+                    let _ = id;
+                }
+                for (o, id) in &held {
+                    if o.statement_cache.size() != refs[id].keys.len() {
+                        bad("registry-missed-owned-client", format!("registry operation did not reach checked-out connection {}: size {} expected {}", id, o.statement_cache.size(), refs[id].keys.len()));
+                    }
+                }
+                for (cw, id) in &taken {
+                    if cw.statement_cache.size() != refs[id].keys.len() {
+                        bad("registry-reached-taken-client", format!("registry operation changed the cache of taken connection {}", id));
+                    }
+                }
+                settle().await;
+            }
+            Op::ServerClose(i) => {
+                let n = w(|w| {
+                    w.conns[i].close = true;
+                    w.conns[i].notify.clone()
+                });
+                n.notify_one();
+                settle().await;
+                if let Some(r) = refs.get_mut(&i) {
+                    if !r.left_pool {
+                        r.doomed = true;
+                    }
+                }
+            }
+            Op::ServerFail(i) => {
+                w(|w| w.conns[i].fail_next = true);
+            }
+            Op::RetainNone => {
+                let r = pool.retain(|_, _| false);
+                for cw in r.removed {
+                    // which connection? ask it (it is ours now)
+                    if Arc::weak_count(&cw.statement_cache) != 0 {
+                        bad("retained-out-client-still-registered", "a client removed by retain() is still in the registry".into());
+                    }
+                    if let Some(id) = ident(&cw).await {
+                        refs.entry(id).or_default().left_pool = true;
+                        taken.push((cw, id));
+                    }
+                }
+            }
+            Op::Resize(n) => {
+                pool.resize(n);
+                limit = n;
+                settle().await;
+            }
+        }
+        // a failing health check dooms the client: fail_next armed + a method that queries
+        // (resolved lazily: if the next recycle consumes the failure the client must vanish)
+        for (id, r) in refs.iter_mut() {
+            let armed = w(|w| w.conns[*id].fail_next);
+            if armed && exp_query.is_some() && !held.iter().any(|h| h.1 == *id) && !r.left_pool {
+                // idle client with an armed failure: its next recycle must reject it
+                r.doomed = true;
+            }
+        }
+        let mut h = std::collections::hash_map::DefaultHasher::new();
+        (held.iter().map(|x| x.1).collect::<Vec<_>>(), taken.iter().map(|x| x.1).collect::<Vec<_>>()).hash(&mut h);
+        for (id, r) in &refs {
+            (id, &r.keys, r.doomed, r.left_pool).hash(&mut h);
+        }
+        w(|w| {
+            for c in &w.conns {
+                (c.close, c.fail_next, significant(&c.log).len()).hash(&mut h);
+            }
+        });
+        (pool.status().size, pool.status().available, sc.method).hash(&mut h);
+        note_state(h.finish());
+    }
+    // registry must not keep entries of clients that left the pool: weak counts
+    for (cw, id) in &taken {
+        if Arc::weak_count(&cw.statement_cache) != 0 {
+            bad("left-client-still-registered", format!("connection {} left the pool but is still registered", id));
+        }
+    }
+    for (o, id) in &held {
+        if Arc::weak_count(&o.statement_cache) != 1 {
+            bad("owned-client-not-registered", format!("checked-out connection {} has {} registry entries", id, Arc::weak_count(&o.statement_cache)));
+        }
+    }
+    drop(held);
+    drop(taken);
+    settle().await;
+    drop(pool);
+    settle().await;
+    let mut h = std::collections::hash_map::DefaultHasher::new();
+    w(|w| w.log.hash(&mut h));
+    sc.method.hash(&mut h);
+    h.finish()
+}
+
+pub fn scenarios(tier: Tier) -> Vec<Scenario> {
+    let thorough = tier == Tier::Thorough;
+    let mut v = Vec::new();
+    for method in 0..4usize {
+        for ms in [1usize, 2] {
+            let depth = match (thorough, ms) {
+                (false, 1) => 5,
+                (false, _) => 5,
+                (true, 1) => 8,
+                (true, _) => 6,
+            };
+            let sc = C16Scenario { method, ms, depth };
+            v.push(Scenario::new(
+                &format!("histories/{:?}/ms{}", method_of(method), ms).replace("(\"SELECT custom_check()\")", ""),
+                "every history of get / return / take / retain / resize / prepare_cached / prepare_typed_cached (keys differing only in types) / cache clear+remove / registry clear+remove / server closes a connection / server fails the next query",
+                0,
+                0,
+                move || run_c16(&sc),
+            ));
+        }
+    }
+    v
+}
+
+pub fn assumptions() -> Vec<String> {
+    vec![
+        "the scripted backend speaks the subset of the v3 protocol that startup, simple queries, Parse/Describe/Sync and Close need; tokio-postgres 0.7.18 is trusted".into(),
+        "a closed connection is 'known closed' after the runtime has settled (12 yields of the current-thread runtime)".into(),
+        "client, connection and server tasks run on one current-thread tokio runtime, so each history is deterministic".into(),
+    ]
+}
